@@ -105,6 +105,10 @@ def instrument(src_root, only=None):
             f.write(text)
         done.append(rel)
     lib = os.path.join(src_root, "src/lib.rs")
+    libtext = open(lib).read()
+    with open(lib, "w") as f:
+        # harness stubs for std::sync::Arc::drop_slow must name the (unstable) Allocator parameter
+        f.write("#![cfg_attr(kani, feature(allocator_api))]\n" + libtext)
     with open(lib, "a") as f:
         f.write('\n#[cfg(kani)] #[path = "%s/sort_stub.rs"] pub(crate) mod verif_sort;\n' % KANI_DIR)
     return done
